@@ -9,6 +9,7 @@ package discovery
 //@ func (vcr.VCR).Verifier
 //@   trusted
 //@   benign
+//@   ensures !isNilIface(result)
 //@ func (verifier.Verifier).VerifyVP
 //@   trusted
 //@   benign
